@@ -434,4 +434,68 @@ func runC14(c *ctx) {
 			emitC14(c, p, m)
 		}
 	}
+	// runs of ADJACENT stacks of one colour whose heights are not a palindrome (e.g. [W W][W][W] on b1,c1,d1): a reflection
+	// moves the stack boundaries but keeps the sequence of pieces read along the row or column, so an image key that does not
+	// mark where a stack ends confuses two distinct images.  The rest of the board is empty or symmetric.
+	for b := 0; b < 40*c.scale; b++ {
+		size := 4 + b%5
+		board := make([][]tak.Square, size)
+		for y := range board {
+			board[y] = make([]tak.Square, size)
+		}
+		col := []tak.Color{tak.White, tak.Black}[r.Intn(2)]
+		l := 2 + r.Intn(2)
+		if (size-l)%2 == 1 { // centred run: it is mapped onto itself by the reflection across the run
+			l++
+		}
+		if l > size {
+			l = size
+		}
+		x0 := (size - l) / 2
+		line := r.Intn(size)
+		vertical := r.Intn(2) == 0
+		hs := make([]int, l)
+		for {
+			pal := true
+			for i := range hs {
+				hs[i] = 1 + r.Intn(3)
+			}
+			for i := range hs {
+				if hs[i] != hs[l-1-i] {
+					pal = false
+				}
+			}
+			if !pal {
+				break
+			}
+		}
+		for i, h := range hs {
+			var s tak.Square
+			for j := 0; j < h; j++ {
+				s = append(s, tak.MakePiece(col, tak.Flat))
+			}
+			if vertical {
+				board[x0+i][line] = s
+			} else {
+				board[line][x0+i] = s
+			}
+		}
+		if r.Intn(2) == 0 { // a symmetric pair of enemy stones elsewhere
+			o := (line + 1 + r.Intn(size-1)) % size
+			e := tak.Square{tak.MakePiece(col.Flip(), tak.Flat)}
+			if vertical {
+				board[x0][o], board[x0+l-1][o] = e, e
+			} else {
+				board[o][x0], board[o][x0+l-1] = e, e
+			}
+		}
+		p, err := tak.FromSquares(tak.Config{Size: size}, board, 2+r.Intn(10))
+		if err != nil {
+			continue
+		}
+		c.stat("kind_adjacent_stack_runs", 1)
+		for _, m := range c14Moves(c, p, 2) {
+			emitC14(c, p, m)
+		}
+	}
 }
